@@ -487,3 +487,171 @@ theorem spec_reads_encTree (hc : LexCodec f lx nc ok) (showLib : Dict → String
 end
 
 end C05Bridge
+
+/-! ### the specification-level writer, element by element, read by norad's attribute parsers
+
+`Ufo3.specWrite` spells every attribute out (also the defaults: `type="offcurve"`, `smooth="no"`, all six transformation
+coefficients, both advance attributes) and puts the attributes in its own order; norad's parsers (`Glif.parseAnchor`, …,
+the functions `Glif.parseGlif` is made of and `C12`'s theorems are about) read every element back. -/
+
+namespace C05Bridge
+open Ufo3 Glif
+
+/-- what is assumed of Rust's `str::parse::<f64>` / `Color::from_str` / `from_str_radix` on the strings the
+    specification-level renderer produces (the counterpart of `LexCodec`) -/
+structure ParseCodec (rd : Str → Option Nat) (rdr : Render) (ok : Nat → Prop) : Prop where
+  num : ∀ n, ok n → rd (rdr.nums [n]).toList = some n
+  col : ∀ c : ColorD, (ok c.r ∧ unitOk c.r = true) → (ok c.g ∧ unitOk c.g = true) → (ok c.b ∧ unitOk c.b = true) →
+    (ok c.a ∧ unitOk c.a = true) → readCol rd (rdr.nums [c.r, c.g, c.b, c.a]).toList = some ⟨c.r, c.g, c.b, c.a⟩
+  hex : ∀ c, ValidCodepoint c → parseHex (rdr.hex c).toList = some c
+
+def nodeAttrs : XNode → List Attr
+  | .elem _ as _ _ => attrsL as
+
+def L (s : String) : Str := s.toList
+def colG (c : ColorD) : Color := ⟨c.r, c.g, c.b, c.a⟩
+def trG (t : Affine Nat) : Transform := ⟨t.xScale, t.xyScale, t.yxScale, t.yScale, t.xOffset, t.yOffset⟩
+/-- every channel is a number of the codec's domain and lies in 0..1 -/
+def okColor (ok : Nat → Prop) (c : Option ColorD) : Prop :=
+  ∀ x, c = some x → (ok x.r ∧ unitOk x.r = true) ∧ (ok x.g ∧ unitOk x.g = true) ∧ (ok x.b ∧ unitOk x.b = true) ∧
+    (ok x.a ∧ unitOk x.a = true)
+
+section
+variable {rd : Str → Option Nat} {rdr : Render} {ok : Nat → Prop}
+
+/-- **anchor** -/
+theorem norad_parses_spec_anchor (hc : ParseCodec rd rdr ok) (seen : List Str) {a : AnchorD} (hx : ok a.x) (hy : ok a.y)
+    (hn : ∀ n, a.name = some n → validName (L n) = true) (hcol : okColor ok a.color)
+    (hi : FreshId seen (a.identifier.map L)) :
+    parseAnchor rd 2 seen (nodeAttrs (writeAnchor rdr a)) =
+      some { x := a.x, y := a.y, name := a.name.map L, color := a.color.map colG, ident := a.identifier.map L } := by
+  obtain ⟨x, y, name, color, ident⟩ := a
+  simp only at hx hy hn hcol hi
+  have nx := hc.num _ hx
+  have ny := hc.num _ hy
+  have hcl : ∀ c, color = some c → readCol rd (rdr.nums [c.r, c.g, c.b, c.a]).toList = some ⟨c.r, c.g, c.b, c.a⟩ :=
+    fun c h => hc.col c (hcol c h).1 (hcol c h).2.1 (hcol c h).2.2.1 (hcol c h).2.2.2
+  have hid : ∀ i, ident = some i → readIdent 2 seen (L i) = some (L i) :=
+    fun i h => readIdent_ok (hi (L i) (by simp [h])).1 (hi (L i) (by simp [h])).2
+  cases name <;> cases color <;> cases ident <;>
+    simp [nodeAttrs, writeAnchor, attrsL, optA, colorA, parseAnchor, foldAttrs, aStep, aApply, aFinish, nx, ny, hn, hcl,
+          hid, L, colG] <;> simp_all [L]
+
+/-- the line of a guideline description: x alone, y alone, or x, y and an angle within 0..360 -/
+def lineOf (g : GuidelineD) : Option Line :=
+  match g.x, g.y, g.angle with
+  | some x, none, none => some (.vertical x)
+  | none, some y, none => some (.horizontal y)
+  | some x, some y, some d => some (.angle x y d)
+  | _, _, _ => none
+
+/-- **guideline** -/
+theorem norad_parses_spec_guideline (hc : ParseCodec rd rdr ok) (seen : List Str) {g : GuidelineD} {l : Line}
+    (hl : lineOf g = some l)
+    (hx : ∀ v, g.x = some v → ok v) (hy : ∀ v, g.y = some v → ok v)
+    (ha : ∀ v, g.angle = some v → ok v ∧ angleOk v = true)
+    (hn : ∀ n, g.name = some n → validName (L n) = true) (hcol : okColor ok g.color)
+    (hi : FreshId seen (g.identifier.map L)) :
+    parseGuideline rd 2 seen (nodeAttrs (writeGuideline rdr g)) =
+      some { line := l, name := g.name.map L, color := g.color.map colG, ident := g.identifier.map L } := by
+  obtain ⟨x, y, angle, name, color, ident⟩ := g
+  simp only at hx hy ha hn hcol hi
+  have hcl : ∀ c, color = some c → readCol rd (rdr.nums [c.r, c.g, c.b, c.a]).toList = some ⟨c.r, c.g, c.b, c.a⟩ :=
+    fun c h => hc.col c (hcol c h).1 (hcol c h).2.1 (hcol c h).2.2.1 (hcol c h).2.2.2
+  have hid : ∀ i, ident = some i → readIdent 2 seen (L i) = some (L i) :=
+    fun i h => readIdent_ok (hi (L i) (by simp [h])).1 (hi (L i) (by simp [h])).2
+  have nx : ∀ v, x = some v → rd (rdr.nums [v]).toList = some v := fun v h => hc.num _ (hx v h)
+  have ny : ∀ v, y = some v → rd (rdr.nums [v]).toList = some v := fun v h => hc.num _ (hy v h)
+  have na : ∀ v, angle = some v → rd (rdr.nums [v]).toList = some v := fun v h => hc.num _ (ha v h).1
+  have ka : ∀ v, angle = some v → angleOk v = true := fun v h => (ha v h).2
+  cases x <;> cases y <;> cases angle <;> simp [lineOf] at hl <;> subst hl <;>
+    cases name <;> cases color <;> cases ident <;>
+    simp [nodeAttrs, writeGuideline, attrsL, optA, optN, colorA, parseGuideline, foldAttrs, guStep, guApply, guFinish,
+          nx, ny, na, ka, hn, hcl, hid, L, colG] <;> simp_all [L]
+
+def ptG : PType → C11.PT
+  | .move => .move | .line => .line | .offcurve => .off | .curve => .curve | .qcurve => .qcurve
+
+@[simp] theorem readPointType_offcurve : readPointType ['o', 'f', 'f', 'c', 'u', 'r', 'v', 'e'] = some .off := by decide
+
+/-- **point**: also the spelt-out defaults `type="offcurve"` and `smooth="no"` are read as intended -/
+theorem norad_parses_spec_point (hc : ParseCodec rd rdr ok) (seen : List Str) {p : PointD} (hx : ok p.x) (hy : ok p.y)
+    (hn : ∀ n, p.name = some n → validName (L n) = true) (hi : FreshId seen (p.identifier.map L)) :
+    parsePoint rd 2 seen (nodeAttrs (writePoint rdr p)) =
+      some { x := p.x, y := p.y, typ := ptG p.typ, smooth := p.smooth, name := p.name.map L, ident := p.identifier.map L } := by
+  obtain ⟨x, y, typ, smooth, name, ident⟩ := p
+  simp only at hx hy hn hi
+  have nx := hc.num _ hx
+  have ny := hc.num _ hy
+  have hid : ∀ i, ident = some i → readIdent 2 seen (L i) = some (L i) :=
+    fun i h => readIdent_ok (hi (L i) (by simp [h])).1 (hi (L i) (by simp [h])).2
+  cases typ <;> cases smooth <;> cases name <;> cases ident <;>
+    simp [nodeAttrs, writePoint, attrsL, optA, PType.str, parsePoint, foldAttrs, pStep, pApply, pFinish, nx, ny, hn, hid,
+          L, ptG] <;> simp_all [L]
+
+def okAffine (ok : Nat → Prop) (t : Affine Nat) : Prop :=
+  ok t.xScale ∧ ok t.xyScale ∧ ok t.yxScale ∧ ok t.yScale ∧ ok t.xOffset ∧ ok t.yOffset
+
+/-- **component**: all six coefficients spelt out, each lands in the field the specification names -/
+theorem norad_parses_spec_component (hc : ParseCodec rd rdr ok) (seen : List Str) {k : ComponentD}
+    (hb : validName (L k.base) = true) (ht : okAffine ok k.t) (hi : FreshId seen (k.identifier.map L)) :
+    parseComponent rd 2 seen (nodeAttrs (writeComponent rdr k)) =
+      some { base := L k.base, transform := trG k.t, ident := k.identifier.map L } := by
+  obtain ⟨base, t, ident⟩ := k
+  obtain ⟨a, b, c, d, e, f'⟩ := t
+  obtain ⟨h1, h2, h3, h4, h5, h6⟩ := ht
+  simp only at hb hi h1 h2 h3 h4 h5 h6
+  have n1 := hc.num _ h1; have n2 := hc.num _ h2; have n3 := hc.num _ h3
+  have n4 := hc.num _ h4; have n5 := hc.num _ h5; have n6 := hc.num _ h6
+  have hid : ∀ i, ident = some i → readIdent 2 seen (L i) = some (L i) :=
+    fun i h => readIdent_ok (hi (L i) (by simp [h])).1 (hi (L i) (by simp [h])).2
+  cases ident <;>
+    simp [nodeAttrs, writeComponent, attrsL, optA, transformA, parseComponent, foldAttrs, cStep, cApply, cFinish, tSet,
+          n1, n2, n3, n4, n5, n6, hb, hid, L, trG] <;> simp_all [L]
+
+/-- **image** -/
+theorem norad_parses_spec_image (hc : ParseCodec rd rdr ok) {i : ImageD}
+    (hf : imageNameOk (L i.fileName) = true) (ht : okAffine ok i.t) (hcol : okColor ok i.color) :
+    parseImage rd (nodeAttrs (writeImage rdr i)) =
+      some { fileName := L i.fileName, color := i.color.map colG, transform := trG i.t } := by
+  obtain ⟨fn, t, color⟩ := i
+  obtain ⟨a, b, c, d, e, f'⟩ := t
+  obtain ⟨h1, h2, h3, h4, h5, h6⟩ := ht
+  simp only at hf hcol h1 h2 h3 h4 h5 h6
+  have n1 := hc.num _ h1; have n2 := hc.num _ h2; have n3 := hc.num _ h3
+  have n4 := hc.num _ h4; have n5 := hc.num _ h5; have n6 := hc.num _ h6
+  have hcl : ∀ c, color = some c → readCol rd (rdr.nums [c.r, c.g, c.b, c.a]).toList = some ⟨c.r, c.g, c.b, c.a⟩ :=
+    fun c h => hc.col c (hcol c h).1 (hcol c h).2.1 (hcol c h).2.2.1 (hcol c h).2.2.2
+  cases color <;>
+    simp [nodeAttrs, writeImage, attrsL, colorA, transformA, parseImage, foldAttrs, iStep, iApply, iFinish, tSet,
+          n1, n2, n3, n4, n5, n6, hf, hcl, L, trG, colG] <;> simp_all [L]
+
+/-- **advance**: both attributes spelt out -/
+theorem norad_parses_spec_advance (hc : ParseCodec rd rdr ok) {w h : Nat} (hw : ok w) (hh : ok h) :
+    parseAdvance rd (attrsL [("width", rdr.nums [w]), ("height", rdr.nums [h])]) = some (w, h) := by
+  have nw := hc.num _ hw
+  have nh := hc.num _ hh
+  simp [attrsL, parseAdvance, foldAttrs, advStep, advApply, nw, nh]
+
+/-- **unicode** -/
+theorem norad_parses_spec_unicode (hc : ParseCodec rd rdr ok) (cps : List Nat) {c : Nat} (hv : ValidCodepoint c) :
+    parseUnicode cps (nodeAttrs (writeUnicode rdr c)) = some (cpInsert cps c) := by
+  simp [nodeAttrs, writeUnicode, attrsL, parseUnicode, foldAttrs, uniStep, sHex_lit, hc.hex c hv]
+
+/-- the `contour` and `glyph` start tags -/
+theorem norad_parses_spec_contour_attrs (seen : List Str) (cid : Option String) (hi : FreshId seen (cid.map L)) :
+    parseContourAttrs 2 seen (attrsL (optA "identifier" cid)) = some (cid.map L) := by
+  cases cid with
+  | none => simp [attrsL, optA, parseContourAttrs, foldAttrs]
+  | some i =>
+    have := readIdent_ok (hi (L i) (by simp)).1 (hi (L i) (by simp)).2
+    simp [attrsL, optA, parseContourAttrs, foldAttrs, ctStep, sIdentifier_lit, L] at this ⊢
+    simp [this]
+
+theorem norad_parses_spec_glyph_attrs {name : String} (hn : validName (L name) = true) :
+    parseGlyphAttrs (some (attrsL [("name", name), ("format", "2")])) = .ok (L name, 2) := by
+  have : parseU32 10 ['2'] = some 2 := by decide
+  simp [attrsL, parseGlyphAttrs, foldAttrs, gStep, gApply, gFinish, hn, this, L] <;> simp_all [L]
+
+end
+end C05Bridge
